@@ -1,7 +1,7 @@
 SPECIFICATION MCSpec
 CONSTANTS
   Configs <- ConfigsSmall
-  ClampOnAdd = FALSE
+  ClampOnAdd = TRUE
   MaxNow = 8
   MaxDt = 3
   MaxSteps = 9
